@@ -1229,7 +1229,10 @@ def run(tier, seed):
         "built-in name redefined, the documented blocks, random blocks) the code a name holds in 18 configuration positions "
         "is a function of (name, block) only (T_LkPositions); one press/release of every code that has a "
         "layout column through the real stepper under unmapped / self / transparent / deflayermap configurations plus random "
-        "overlapping pairs, traces validated by TLC against P_C11; one configuration per output path with a no-op key as the "
+        "overlapping pairs, and identity keys (unmapped / `_` / self on the base layer) under a second layer that remaps them, "
+        "reached by layer-while-held / layer-toggle / layer-switch (every consistent history of <= 5 press / release / OS-repeat "
+        "events of the key and the layer key, random histories): a key pressed on the base layer comes out as itself for "
+        "every event while it is held (I5 sharp), traces validated by TLC against P_C11; one configuration per output path with a no-op key as the "
         "emitted key (tap words <= 3, holds, overlaps, random histories; small members explored with L1 || P_C11 and replayed), "
         "judged by P_C11 I2; Cfg.mapped_keys of random defsrc / deflayermap / "
         "process-unmapped-keys configurations compared by TLC with P_C11.Intercept; after start-up and after every step of "
